@@ -166,11 +166,16 @@ class ExprMixin:
                 a, b = self.coerce(a, REAL), self.coerce(b, REAL)
             elif ka[0] in ('list', 'seq', 'heaplist') and kb[0] in ('list', 'seq', 'heaplist'):
                 pa = self._cur_path
-                ta, ea = self.to_seq(a, pa)
-                tb, eb = self.to_seq(b, pa)
+                ea = self.elem_kind(a) or self.elem_kind(b)
                 if ea is None:
-                    ea = eb
-                return VSeq(z3.If(c, ta, tb), ea)
+                    return a
+                emp = z3.Empty(z3.SeqSort(self.ctx.sorts.sort_of(ea)))
+                ta = emp if (isinstance(a, VList) and not a.items) else self.to_seq(a, pa)[0]
+                tb = emp if (isinstance(b, VList) and not b.items) else self.to_seq(b, pa)[0]
+                res = VSeq(z3.If(c, ta, tb), ea)
+                nn = lambda v: getattr(v, 'elems_nonnull', False) or (isinstance(v, VList) and not v.items)
+                res.elems_nonnull = nn(a) and nn(b)
+                return res
             elif 'data' in (ka[0], kb[0]) or {ka[0], kb[0]} <= {'str', 'enum', 'int', 'real', 'none'}:
                 a, b = self.coerce(a, DATA), self.coerce(b, DATA)
             else:
@@ -239,7 +244,8 @@ class ExprMixin:
                 return z3.BoolVal(False)
             ci = self.ctx.index.find_class(a.cls)
             m = self.ctx.index.lookup_method(ci, '__eq__') if ci else None
-            if m is None:
+            if m is None or self.ctx.spec_mode > 0:
+                # specification text compares objects by identity
                 return a.t == b.t
             na, nb = S.null(a.cls), S.null(b.cls)
             user = self.user_eq(m, a, b, path)
@@ -279,11 +285,12 @@ class ExprMixin:
             if isinstance(b, VList) and not b.items:
                 return self.length(a, path) == 0
             ek = self.elem_kind(a) or self.elem_kind(b)
-            if ek[0] == 'ref' and self.has_user_eq(ek[1]):
+            if ek[0] == 'ref' and self.has_user_eq(ek[1]) and self.ctx.spec_mode == 0:
                 # elementwise user equality
                 la, lb = self.length(a, path), self.length(b, path)
                 j = self.ctx.fresh('j', z3.IntSort())
-                body = self.eq(self.at(a, j, path), self.at(b, j, path), path)
+                sub = path.fork(z3.And(0 <= j, j < la, la == lb))
+                body = self.eq(self.at(a, j, sub), self.at(b, j, sub), sub)
                 return z3.And(la == lb, z3.ForAll([j], z3.Implies(z3.And(0 <= j, j < la), body)))
             ta, _ = self.to_seq(a, path)
             tb, _ = self.to_seq(b, path)
@@ -341,7 +348,8 @@ class ExprMixin:
         if isinstance(xs, (VSeq, VHeapList)):
             n = self.length(xs, path)
             j = self.ctx.fresh('j', z3.IntSort())
-            body = self.eq(self.at(xs, j, path), x, path)
+            sub = path.fork(z3.And(0 <= j, j < n))
+            body = self.eq(self.at(xs, j, sub), x, sub)
             return z3.Exists([j], z3.And(0 <= j, j < n, body))
         if isinstance(xs, VStr) and isinstance(x, VStr):
             return z3.Contains(xs.t, x.t)
@@ -394,6 +402,8 @@ class ExprMixin:
 
     def global_name(self, name, path, node=None):
         mod = self.cur_mod
+        if hasattr(self, 'prim_' + name) and (mod.name.startswith('contracts') or name in self.ctx.specs):
+            return VSpecFn(name)
         r = self.ctx.index.resolve(mod, name)
         if r is None:
             if name in self.ctx.specs:
@@ -532,7 +542,16 @@ class ExprMixin:
         p = path
         guards = []
         for sub in node.values:
-            v = self.ev(sub, p)
+            if guards:
+                live = z3.simplify(z3.And(*guards) if is_and else z3.And(*[z3.Not(g) for g in guards]))
+                if z3.is_false(live):
+                    break       # short circuit: the remaining operands are never evaluated
+            try:
+                v = self.ev(sub, p)
+            except PathAbort:
+                if guards and not self.feasible(p):
+                    break
+                raise
             vals.append(v)
             t = self.truth(v, p)
             guards.append(t)
@@ -540,6 +559,7 @@ class ExprMixin:
         # value of the expression: python returns an operand; if all bool -> And/Or
         if all(isinstance(v, VBool) for v in vals):
             return VBool(z3.And(*[v.t for v in vals]) if is_and else z3.Or(*[v.t for v in vals]))
+        guards = guards[:len(vals)]
         r = vals[-1]
         for v, g in zip(reversed(vals[:-1]), reversed(guards[:-1])):
             r = self.merge(g, r, v) if is_and else self.merge(g, v, r)
@@ -562,8 +582,13 @@ class ExprMixin:
             return self.ev(node.body, path)
         if z3.is_false(z3.simplify(c)):
             return self.ev(node.orelse, path)
-        a = self.ev(node.body, path.fork(c))
-        b = self.ev(node.orelse, path.fork(z3.Not(c)))
+        pa, pb = path.fork(c), path.fork(z3.Not(c))
+        if not self.feasible(pa):
+            return self.ev(node.orelse, path)
+        if not self.feasible(pb):
+            return self.ev(node.body, path)
+        a = self.ev(node.body, pa)
+        b = self.ev(node.orelse, pb)
         return self.merge(c, a, b)
 
     def ev_Compare(self, node, path):
